@@ -400,7 +400,23 @@ def demux(e):
     return demux(out) if _has_table_select(out) else out
 
 
+_NSEL = {}
+
+
 def _count_table_selects(e, limit):
+    """number of table look-ups in e (capped at limit); cached per term: path conditions are asked about many times"""
+    k = e.get_id()
+    hit = _NSEL.get(k)
+    if hit is not None and hit[0].eq(e):
+        return hit[1]
+    n = _count_table_selects0(e, limit)
+    if len(_NSEL) > 20000:
+        _NSEL.clear()
+    _NSEL[k] = (e, n)
+    return n
+
+
+def _count_table_selects0(e, limit):
     seen = set()
     todo = [e]
     n = 0
